@@ -97,6 +97,35 @@ struct ScalarOver<R1, Q2, false> {
     static auto of(R1 a, Q2 q) { return a / au::unblock_int_div(q); }
 };
 
+// unit symbols and constants as one operand: the stored number must be b (for *, q / wrapper) or R{1} / b (wrapper / q), in b's own rep
+template <typename U1, typename U2, typename R2, bool F = std::is_floating_point<R2>::value>
+struct WrapperForms {
+    static void run(R2) {}
+};
+template <typename U1, typename U2, typename R2>
+struct WrapperForms<U1, U2, R2, true> {
+    template <typename G>
+    static void judge(const char *op, R2 b, G got, R2 want) {
+        g_st.evals++;
+        if (!std::is_same<G, R2>::value) mismatch(op, b, b, got, want);
+        else if (!(vfw::same_value((R2)got, want) || (got != got && want != want))) mismatch(op, b, b, got, want);
+    }
+    static void run(R2 b) {
+        const auto sym = au::symbol_for(U1{});
+        const auto cst = au::make_constant(U1{});
+        auto qb = au::make_quantity<U2>(b);
+        const R2 inv = R2{1} / b;
+        auto r1 = raw_of(sym * qb); auto r2 = raw_of(qb * sym); auto r3 = raw_of(qb / sym); auto r4 = raw_of(sym / qb);
+        auto r5 = raw_of(cst * qb); auto r6 = raw_of(qb * cst); auto r7 = raw_of(qb / cst); auto r8 = raw_of(cst / qb);
+        VF_PHASE(vf::PH_OPERATION) {
+            r1 = raw_of(sym * qb); r2 = raw_of(qb * sym); r3 = raw_of(qb / sym); r4 = raw_of(sym / qb);
+            r5 = raw_of(cst * qb); r6 = raw_of(qb * cst); r7 = raw_of(qb / cst); r8 = raw_of(cst / qb);
+        }
+        judge("symbol*q", b, r1, b); judge("q*symbol", b, r2, b); judge("q/symbol", b, r3, b); judge("symbol/q", b, r4, inv);
+        judge("constant*q", b, r5, b); judge("q*constant", b, r6, b); judge("q/constant", b, r7, b); judge("constant/q", b, r8, inv);
+    }
+};
+
 template <typename U1, typename R1, typename U2, typename R2, bool PlainDiv>
 __attribute__((noinline)) void run_pair(long id, const char *desc, u64 nrandom, u64 seed) {
     using Q1 = au::Quantity<U1, R1>;
@@ -141,6 +170,7 @@ __attribute__((noinline)) void run_pair(long id, const char *desc, u64 nrandom, 
             if (!vfw::same_value(got2, want)) mismatch("s/unblock(q)", a, b, got2, want);
             if (!vfw::same_value(got3, want)) mismatch("s/q", a, b, got3, want);
         } else g_st.skipped++;
+        if ((idx & 7) == 0) WrapperForms<U1, U2, R2>::run(b);
     });
     dump("pprod", id, desc);
 }
@@ -188,23 +218,28 @@ struct PowStep<U, R, K, true> {
     static void fact(long id) { char op[16]; snprintf(op, 16, "int_pow<%d>", K); result_fact<decltype(au::int_pow<K>(std::declval<au::Quantity<U, R>>()))>(id, op); }
 };
 
-template <typename U, typename R, bool F = std::is_floating_point<R>::value>
-struct Roots {
-    static void fact(long) {}
-    static void run(R) {}
-};
+// sqrt / cbrt: the std function applied to the stored value, in the type the std function returns for that argument type
+// (R for floating R, double for integral R)
 template <typename U, typename R>
-struct Roots<U, R, true> {
+struct Roots {
+    using S = decltype(std::sqrt(std::declval<R>()));
+    using Cb = decltype(std::cbrt(std::declval<R>()));
     static void fact(long id) {
         result_fact<decltype(au::sqrt(std::declval<au::Quantity<U, R>>()))>(id, "sqrt");
         result_fact<decltype(au::cbrt(std::declval<au::Quantity<U, R>>()))>(id, "cbrt");
     }
+    template <typename A, typename B>
+    static bool same(A a, B b) { return std::is_same<A, B>::value && (vfw::same_value(a, (A)b) || (a != a && b != b)); }
     static void run(R x) {
-        R s{}, c{};
+        auto qs = au::sqrt(au::make_quantity<U>(R{1})); auto qc = au::cbrt(au::make_quantity<U>(R{1}));
+        decltype(raw_of(qs)) s{}; decltype(raw_of(qc)) c{};
         VF_PHASE(vf::PH_OPERATION) { s = raw_of(au::sqrt(au::make_quantity<U>(x))); c = raw_of(au::cbrt(au::make_quantity<U>(x))); }
         g_st.evals += 2;
-        if (!vfw::same_value(s, (R)std::sqrt(x))) mismatch("sqrt", x, x, s, (R)std::sqrt(x));
-        if (!vfw::same_value(c, (R)std::cbrt(x))) mismatch("cbrt", x, x, c, (R)std::cbrt(x));
+        const S ws = std::sqrt(x); const Cb wc = std::cbrt(x);
+        if (!std::is_same<decltype(s), S>::value) mismatch("sqrt result rep", x, x, s, ws);
+        else if (!same(s, ws)) mismatch("sqrt", x, x, s, ws);
+        if (!std::is_same<decltype(c), Cb>::value) mismatch("cbrt result rep", x, x, c, wc);
+        else if (!same(c, wc)) mismatch("cbrt", x, x, c, wc);
     }
 };
 
